@@ -397,7 +397,7 @@ class C05(Prop):
                 "GroupedCache.flatten_isolated_from_source", "GroupedCache.grouped_size_survives_member_mutation", "GroupedCache.grouped_stale_after_member_relabel_counterexample",
                 "GroupedCache.flatten_stale_after_member_relabel_counterexample",
                 "GroupedCache.grouped_name_stale_after_member_rename_counterexample",
-                "GroupedCache.grouped_take_before_read_counterexample", "GroupedCache.grouped_setitem_incoherent_counterexample"]
+                "GroupedCache.grouped_take_read_independent", "GroupedCache.grouped_take_fills", "GroupedCache.grouped_setitem_incoherent_counterexample"]
     rule = ("(a) constructor groups: one set of axes (rank 0-4, sizes 0-4, int/float/str labels) given through every "
             "documented form (label lists + dims, lists as python lists, (name, labels) pairs, Axis objects, dict + dims, "
             "OrderedDict, dict without dims, labels= keyword, names only, nothing) with values as ndarray / nested list / "
@@ -1709,6 +1709,11 @@ class C05(Prop):
 
     def extra_evidence(self):
         return {"monitor_arrays_constructed": MON["constructed"], "monitor_illformed": MON["illformed"]}
+
+    def known(self, c, io, ans, mm, open_findings):
+        if any(f["id"] == "K09" for f in open_findings) and c05_cache.known_grouped(c, mm):
+            return "K09"
+        return None
 
     def nontrivial(self, c):
         if c["op"] in c05_cache.OPS:
